@@ -387,7 +387,7 @@ def _decode_uspfs_table(
         ancestor_synteny = lca_sets[root_object]
         root_synteny = sort_synteny(lca_sets[root_object])
     else:
-        ancestor_synteny |= gain_sets[root_object]
+        ancestor_synteny = ancestor_synteny | gain_sets[root_object]
         root_synteny = sort_synteny(ancestor_synteny)
 
     if (
